@@ -19,11 +19,28 @@ def _extract_cases(prog):
     f = prog.fn("ExpectationMaker::extract")
     o = Origins(f)
     # the captures local is bound by role: the local of type Captures that holds the regex match
-    cap_locals = []
+    derived = set()
     for l in range(len(f.locals)):
         ds = f.defs.get(l, [])
-        if len(ds) == 1 and ds[0][2] == "call" and f.lty(l).startswith("std::vec::Vec<") and any(n.kind == "call" and method_name(n.a) == "Regex::captures" for n in o._def(ds[0], 0, ()).walk()):
-            cap_locals.append(l)
+        if len(ds) == 1 and f.lty(l).startswith("std::vec::Vec<") and any(n.kind == "call" and method_name(n.a) == "Regex::captures" for n in o._def(ds[0], 0, ()).walk()):
+            derived.add(l)
+    # .. the one that is measured / indexed (after a helper was inlined several locals hold the same Vec on its way to the user's `captures`)
+    used = set()
+    for bb, t in f.calls():
+        if mname(t) in ("Vec::len", "slice::len", "Index::index") and t["args"]:
+            pl = t["args"][0].get("copy") or t["args"][0].get("move")
+            if pl is not None and not pl["p"]:
+                d0 = f.single_def(pl["l"])
+                tgt = d0[3]["place"] if d0 and d0[2] == "assign" and d0[3]["k"] == "ref" else None
+                # `&captures`, or `&*captures` through Deref
+                if tgt is not None and tgt["l"] in derived:
+                    used.add(tgt["l"])
+                elif d0 and d0[2] == "call" and mname(d0[3]) == "Deref::deref":
+                    a0 = d0[3]["args"][0].get("copy") or d0[3]["args"][0].get("move")
+                    d1 = f.single_def(a0["l"]) if a0 is not None and not a0["p"] else None
+                    if d1 and d1[2] == "assign" and d1[3]["k"] == "ref" and d1[3]["place"]["l"] in derived:
+                        used.add(d1[3]["place"]["l"])
+    cap_locals = sorted(used) if used else sorted(derived)
     if len(cap_locals) != 1:
         raise AnchorError("ExpectationMaker::extract: the local holding the regex captures (a Vec derived from Regex::captures) is not unique (%d)" % len(cap_locals))
     cap = cap_locals[0]
@@ -33,11 +50,12 @@ def _extract_cases(prog):
         pl = op.get("copy") or op.get("move")
         if not pl:
             return False
+        want = f.canon_place({"l": cap, "p": []})
         c = f.canon_place(pl)
-        if c["l"] == cap:
+        if c == want or c["l"] == cap:
             return True
         d = f.single_def(c["l"])
-        return bool(d and d[2] == "assign" and d[3]["k"] == "ref" and f.canon_place(d[3]["place"])["l"] == cap)
+        return bool(d and d[2] == "assign" and d[3]["k"] == "ref" and (f.canon_place(d[3]["place"]) == want or d[3]["place"]["l"] == cap))
 
     def derives_from_capture(op, k):
         n = peel(o.operand(op))
